@@ -177,6 +177,9 @@ func (s *absState) iv(t *term.Term) ival {
 			if a.lo >= 0 {
 				if a.hi < b.lo {
 					r = a
+				} else if b.lo == b.hi && a.lo/b.lo == a.hi/b.lo {
+					// same quotient over the whole range: remainder is monotone
+					r = ival{a.lo % b.lo, a.hi % b.lo}
 				} else {
 					r = ival{0, min64(m, a.hi)}
 				}
